@@ -18,14 +18,19 @@ META = {
         "Config (history independence = nothing to remember); C13.4 every response constructor answering an "
         "object-shaped, versioned entry takes its configuration from the per-request adapter (\"jsonrpc\" absent and "
         "server >= 2.0 -> private copy with version 1.0, else the server configuration), computed from that request "
-        "only; C13.5 Payload emits the 1.0 form for version 1.0 and the 2.0 form for version 2.0."),
+        "only; C13.5 Payload emits the 1.0 form for version 1.0 and the 2.0 form for version 2.0; C13.6 every constructor "
+        "receiving a config hands that very object to the package constructors it calls, so the version of the caller's Config "
+        "(not the shared DEFAULT) decides the form for every server class and transport; C13.7 (shared with C14.4) jsonrpc.dump builds its "
+        "Payload with the caller's version, defaulting to the version of the config argument it was given - the per-request adapter - "
+        "and of nothing else (not the configuration stored in a Fault returned by user code)."),
     "does_not_decide": "isolation between concurrently served requests as an observed behaviour (only the absence "
                        "of shared mutable serving state is decided).",
     "rules": {"C13.1": "provenance / ownership of the receiver of every Config-field store (E3)",
               "C13.2": "sibling agreement Config.__init__ <-> Config.copy",
               "C13.3": "call-graph closure from the serving entry points + store scan with receiver provenance",
               "C13.4": "provenance of the config= argument at response constructor sites",
-              "C13.5": "abstract evaluation of Payload builders per version region (E7)"},
+              "C13.5": "abstract evaluation of Payload builders per version region (E7)",
+              "C13.6": "provenance of the config argument at constructor-to-constructor call sites", "C13.7": "imported C14.4"},
     "assumptions": ["dict.copy() / LocalClasses.copy() return a new container"],
 }
 
@@ -259,3 +264,12 @@ def check(ck):
     # ---- C13.5 version switches -------------------------------------------------------------------------
     n5 = common.check_envelopes(ck, "C13.5", prog, ("response", "error"))
     ck.stat("envelope_cells", n5)
+
+    # ---- C13.6 the caller's Config reaches every layer -----------------------------------------------------------------
+    common.check_config_forwarding(ck, "C13.6")
+    ck.floor("C13.6", 6)
+
+    # ---- C13.7 dump() takes the form from the configuration it is given (shared with C14.4) --------------------------------
+    from rules import c14
+    common.import_rules(ck, c14, {"C14.4": "C13.7"})
+    ck.floor("C13.7", 10)
